@@ -394,7 +394,7 @@ pub fn main(env: &Env) -> i32 {
     ];
     rep.exhaustive = true;
     let seed = env.seed;
-    let (n_gen, maxc, maxm, combos) = if env.thorough { (env.scaled(1_000_000), 30, 24, 200u64) } else { (env.scaled(3000), 14, 12, 60u64) };
+    let (n_gen, maxc, maxm, combos) = if env.thorough { (env.scaled(1_000_000), 30, 24, 200u64) } else { (env.scaled(25_000), 14, 12, 60u64) };
     let corpus: Vec<(String, Vec<u8>)> = gen::corpus(false).into_iter().filter(|(_, b)| b.len() < if env.thorough { 200_000 } else { 6_000 }).collect();
     rep.rule = format!(
         "per file ({} seeded-generated mappings with 0..{} classes x 0..{} members + {} corpus files, written by the real writer): EVERY strict prefix length 0..len-1 (crash points), \
